@@ -47,6 +47,10 @@ def number_classes(rng, hi=10.0):
     out.append(("near-integer", math.nextafter(n, 0)))
     out.append(("near-integer", n * (1 + 4e-15)))
     out.append(("near-integer", n * (1 - 4e-15)))
+    out.append(("almost-integer", n * (1 + 3e-10)))   # outside the 1e-14 near-integer rule, inside looser tolerances
+    out.append(("almost-integer", n + 2e-9))
+    out.append(("almost-integer", n * (1 - 5e-12)))
+    out.append(("almost-integer", n + 1e-7))
     out.append(("arith", 0.1 + 0.2))
     out.append(("arith", 1.1 * 3))
     out.append(("arith", math.fsum([0.1] * rng.randrange(1, 30))))
